@@ -46,7 +46,9 @@ CONSTANTS
   Weak_NoEndHeightRepair,          \* catchupReplay does not write a missing #ENDHEIGHT of the last committed block
   Weak_HandshakeAcceptsAppAhead,   \* ReplayBlocks: no "store < app" error case; store = state treats any app >= store as synced
   Weak_EmptyStoreAcceptsAppAhead,  \* ReplayBlocks: with an empty block store only the app hash is compared, not the heights
-  Weak_NoInitialHeightBase         \* ReplayBlocks compares the store with state.LastBlockHeight = 0 even when InitialHeight > 1
+  Weak_NoInitialHeightBase,        \* ReplayBlocks compares the store with state.LastBlockHeight = 0 even when InitialHeight > 1
+  Weak_ReplayDropsParamUpdates,    \* mockProxyApp.EndBlock hands back the stored validator updates but not the ConsensusParamUpdates
+  Weak_CrashCopyDropsValUpdates    \* SaveABCIResponses with DiscardABCIResponses stores the crash-recovery copy without ValidatorUpdates
 
 Nil == "nil"
 
@@ -56,7 +58,12 @@ Nil == "nil"
 \*        hashc (BOOLEAN: the application hash covers the number of commits; FALSE = it only
 \*        changes with transactions, like kvstore's: empty blocks leave it where it was),
 \*        ih (genesis InitialHeight: the chain's first block has height ih; txs/vu/pu/retain are
-\*        indexed by BLOCK NUMBER 1, 2, ..., block number n has height ih - 1 + n; maxh is a height)]
+\*        indexed by BLOCK NUMBER 1, 2, ..., block number n has height ih - 1 + n; maxh is a height),
+\*        discard (BOOLEAN: the state store runs with DiscardABCIResponses, only the crash-recovery
+\*        copy lastABCIResponseKey is written)]
+\* The sm.State is the record [h, hash, lhvc (LastHeightValidatorsChanged), lhpc
+\* (LastHeightConsensusParamsChanged), pid (which parameter update is in force = the height whose EndBlock
+\* returned it, 0 = genesis parameters; it also fixes Version.Consensus.App), nv (size of NextValidators)].
 \* Heights: state.LastBlockHeight, the app height and the store height are 0 until the first block and
 \* jump to ih with it.
 InSeq(x, q)   == \E k \in DOMAIN q : q[k] = x
@@ -80,7 +87,12 @@ MaxUpTo(c, q, h) == LET S == {q[k] + c.ih - 1 : k \in DOMAIN q} \cap 0..h IN
                     IF S = {} THEN 0 ELSE CHOOSE x \in S : \A y \in S : y <= x
 StateAfter(c, h) == [h |-> h, hash |-> HashAfter(c, h),
                      lhvc |-> IF MaxUpTo(c, c.vu, h) = 0 THEN c.ih ELSE MaxUpTo(c, c.vu, h) + 2,
-                     lhpc |-> IF MaxUpTo(c, c.pu, h) = 0 THEN c.ih ELSE MaxUpTo(c, c.pu, h) + 1]
+                     lhpc |-> IF MaxUpTo(c, c.pu, h) = 0 THEN c.ih ELSE MaxUpTo(c, c.pu, h) + 1,
+                     pid  |-> MaxUpTo(c, c.pu, h),
+                     nv   |-> IF MaxUpTo(c, c.vu, h) = 0 THEN 1 ELSE 2]
+\* Version.Consensus.App of a state whose parameters are those of update pid (the app of the runs sets
+\* AppVersion 100 + height together with every parameter update; 1 is what Info reports at genesis)
+AppVersionOf(pid) == IF pid = 0 THEN 1 ELSE 100 + pid
 
 \* ----------------------------------------------------------------------------- journal
 JE(t, h, i) == [t |-> t, h |-> h, i |-> i]
@@ -142,7 +154,7 @@ JournalBad(c, j, k, m) ==
 JournalOK(c, j) == JournalBad(c, j, 1, MonInitOf(c.ih)) = ""
 
 \* ----------------------------------------------------------------------------- initial state
-GenesisStateOf(c) == [h |-> 0, hash |-> Hash0, lhvc |-> c.ih, lhpc |-> c.ih]   \* sm.MakeGenesisState
+GenesisStateOf(c) == [h |-> 0, hash |-> Hash0, lhvc |-> c.ih, lhpc |-> c.ih, pid |-> 0, nv |-> 1]   \* sm.MakeGenesisState
 
 InitState(c) == [
   cfg       |-> c,
@@ -264,13 +276,17 @@ PcCommitStart == IF Weak_CommitWithoutMempoolLock
 PcAfterResponses(s) ==
   IF Weak_SaveStateBeforeAppCommit THEN "AB_SaveVals"
   ELSE IF s.mode = "fc" THEN PcCommitStart ELSE "AB_AppCommit"
-PcAfterBlockExec(s) == IF Weak_NoABCIResponsesSaved THEN PcAfterResponses(s) ELSE "AB_SaveABCIResp1"
+PcAfterBlockExec(s) == IF Weak_NoABCIResponsesSaved THEN PcAfterResponses(s)
+                       ELSE IF s.cfg.discard THEN "AB_SaveABCIResp2"     \* DiscardABCIResponses: no abciResponsesKey:<h>
+                       ELSE "AB_SaveABCIResp1"
 
 \* updateState (state/execution.go): the next sm.State, AppHash still unknown
 UpdateState(s) ==
   [h    |-> s.h, hash |-> s.st.hash,
    lhvc |-> IF s.resp.vu THEN s.h + 2 ELSE s.st.lhvc,
-   lhpc |-> IF s.resp.pu THEN s.h + 1 ELSE s.st.lhpc]
+   lhpc |-> IF s.resp.pu THEN s.h + 1 ELSE s.st.lhpc,
+   pid  |-> IF s.resp.pu THEN s.h ELSE s.st.pid,       \* types.UpdateConsensusParams + Version.Consensus.App
+   nv   |-> IF s.resp.vu THEN 2 ELSE s.st.nv]          \* NextValidators.UpdateWithChangeSet
 
 \* validateBlock as far as this model can see it: height and AppHash of the header
 BlockValid(s, h) == h = NextH(s.cfg, s.st.h) /\ HashAfter(s.cfg, h - 1) = s.st.hash
@@ -414,13 +430,16 @@ Do(s) ==
        ELSE s1
   [] s.pc = "AB_End" ->               \* EndBlockSync: validator / param updates come back here
        LET r  == IF OnApp(s) THEN [vu |-> HasVU(c, s.h), pu |-> HasPU(c, s.h)]
-                 ELSE [vu |-> s.ss_last.vu, pu |-> s.ss_last.pu]     \* mock: from the saved responses
+                 ELSE [vu |-> s.ss_last.vu,                          \* mock: from the saved responses
+                       pu |-> s.ss_last.pu /\ ~Weak_ReplayDropsParamUpdates]
            s1 == [s EXCEPT !.resp = r, !.pc = PcAfterBlockExec(s)] IN
        IF OnApp(s) THEN [s1 EXCEPT !.journal = J(s, "End", s.h, 0), !.app_open.ended = TRUE] ELSE s1
   [] s.pc = "AB_SaveABCIResp1" ->     \* SaveABCIResponses: abciResponsesKey:<h>
        [s EXCEPT !.ss_abci = s.ss_abci \cup {s.h}, !.pc = "AB_SaveABCIResp2"]
   [] s.pc = "AB_SaveABCIResp2" ->     \*   lastABCIResponseKey (SetSync); then updateState
-       [s EXCEPT !.ss_last = [h |-> s.h, vu |-> s.resp.vu, pu |-> s.resp.pu], !.pc = PcAfterResponses(s)]
+       [s EXCEPT !.ss_last = [h |-> s.h, vu |-> s.resp.vu /\ ~(Weak_CrashCopyDropsValUpdates /\ s.cfg.discard),
+                              pu |-> s.resp.pu],
+                 !.pc = PcAfterResponses(s)]
   [] s.pc = "AB_MempoolLock" ->       \* Commit: blockExec.mempool.Lock()
        [s EXCEPT !.lock = TRUE, !.pc = IF Weak_NoFlushBeforeCommit THEN "AB_AppCommit" ELSE "AB_FlushMempoolConn"]
   [] s.pc = "AB_FlushMempoolConn" ->  \*   mempool.FlushAppConn()
@@ -553,6 +572,12 @@ CursorsWithinOneAt(s) == \/ s.tampered
                             /\ s.app_h <= s.bs_h
 WalEndImpliesStoredAt(s) == \A k \in DOMAIN s.wal : s.wal[k].t = "end" => s.wal[k].h <= s.bs_h
 NoStuckAt(s) == s.pc \notin {"HS_Error", "Panic", "Stalled"}
+\* the saved state is the CHAIN's state for its height: what an uncrashed ApplyBlock computes - heights of
+\* the last validator / parameter changes, the parameters in force (and the app version with them), the
+\* next validator set, the app hash (not comparable once an operator let the app diverge)
+StateIsChainStateAt(s) ==
+  s.ss_saved => LET t == StateAfter(s.cfg, s.ss_st.h) IN
+                IF s.tampered THEN [s.ss_st EXCEPT !.hash = t.hash] = t ELSE s.ss_st = t
 MempoolBracketAt(s) == /\ (s.pc = "AB_AppCommit" /\ s.mode = "fc") => (s.lock /\ s.flushed)
                        /\ s.pc = "AB_MempoolUpdate" => s.lock
 ResponsesBeforeCommitAt(s) == (s.pc = "AB_AppCommit" /\ s.mode = "fc") => s.ss_last.h = s.h
